@@ -90,9 +90,10 @@ for _k, _v in {
 # Rules added after the twelfth seeded round.
 for _k, _v in {
  "C01": "Round 12: (no new rule; both changes reported on first sight).",
+ "C15": "Round 13: C15/negotiation-ends (restated C05/loops-cancellable for the negotiation loop).",
  "C02": "Round 12: the netconf-reader foundation now carries 'the filing of a reply does not depend on another id in the message'.",
  "C03": "Round 12: C03/framed-only-through-sendrpc (who-may-write: the framed bytes of a serialized request reach the channel through sendRPC only).",
- "C04": "Round 12: C04/onx-send-command (a platform hook's send-command step is (*network.Driver).SendCommand).",
+ "C04": "Round 13: C04/variant-merge (restated C17/merge). Round 12: C04/onx-send-command (a platform hook's send-command step is (*network.Driver).SendCommand).",
  "C05": "Round 13: C05/deadline-every-pass (every cycle of a read-until loop from one Channel.Read to the next passes the context check), C05/id-allocation (restated). Round 12: C05/closed-result-zero is path-based (no send-less exit of a result-closing worker is reachable without a context-over edge; one-level helper verdicts followed); C05/found-send-input, C05/found-get-prompt.",
  "C06": "Round 13: C06/found-open-cleanup. Round 12: C06/close-callers (who-may-call: Channel.Close is called by Open and Close methods only).",
  "C07": "Round 12: C07/reader-released (restated C06/reader: Channel.Read looks at the error channel before it dequeues), C07/close-callers.",
